@@ -220,6 +220,56 @@ def check_name(case):
         LE.remove_scratch(home)
 
 
+@kind("all-names-one-process")
+def check_all_in_one_process(case):
+    """a HISTORY of requests in one process and one data home: every documented name, in the given order, `passes` times.
+    Later passes find the remote datasets cached: same data, no network."""
+    docs = documented_names()
+    names = [n for n, _t in docs]
+    tables = dict(docs)
+    if case["order"] == "reverse":
+        names = names[::-1]
+    elif case["order"] == "interleaved":
+        names = names[::2] + names[1::2]
+    home = LE.make_scratch()
+    fails = []
+    key = {"harness": "history", "order": case["order"]}
+    first = {}
+    try:
+        with DatasetEnv(home) as env:
+            for p_ in range(case["passes"]):
+                for i, name in enumerate(names):
+                    remote = tables[name] != "sandvine.md"
+                    n_meta = len(env.meta)
+                    res = env.load(name)
+                    lc = env.last
+                    if res[0] != "ok":
+                        fails.append(fail("documented-name-not-loadable", {"name": name, "pass": p_, "position": i,
+                                                                           "result": [str(v).replace(home, "<home>") for v in res[:3]]},
+                                          dict(key, exc=res[1] if res[0] == "exc" else res[0])))
+                        return fails, None
+                    d = res[1]
+                    if p_ == 0:
+                        first[name] = np.array(d, copy=True)
+                        if remote and len(env.meta) == n_meta + 1 and not np.array_equal(d, data_for_url(env.meta[-1]["url"])):
+                            fails.append(fail("returned-data-is-not-the-downloaded-file", {"name": name, "position": i}, key))
+                            return fails, None
+                    else:
+                        if not (isinstance(d, np.ndarray) and d.shape == first[name].shape and np.array_equal(d, first[name])):
+                            fails.append(fail("later-load-returns-other-data", {"name": name, "pass": p_, "position": i}, key))
+                            return fails, None
+                        if remote and lc.net_calls:
+                            fails.append(fail("cached-dataset-needed-network", {"name": name, "pass": p_, "position": i}, key))
+                            return fails, None
+                    try:
+                        d[...] = -1.0          # the caller owns what it was handed
+                    except Exception:
+                        pass
+        return fails, ("history", case["order"], case["passes"], len(names))
+    finally:
+        LE.remove_scratch(home)
+
+
 @kind("unknown-name")
 def check_unknown(case):
     name = case["name"]
@@ -325,5 +375,10 @@ def harnesses(tier, seed):
     def distinct_body(ctx):
         judge(ctx, check_distinct, {}, calls=len(remote_dataset_names()))
 
+    def history_body(ctx):
+        order = ctx.choose(["forward", "reverse", "interleaved"], "order")
+        judge(ctx, check_all_in_one_process, {"order": order, "passes": 3}, calls=3 * len(docs))
+
     return [{"name": "documented-names", "body": names_body}, {"name": "unknown-names", "body": unknown_body},
+            {"name": "all-names-in-one-process", "body": history_body, "bound_text": "all documented names x 3 passes x 3 orders in one process and one data home"},
             {"name": "distinctness", "body": distinct_body}]
